@@ -25,14 +25,13 @@ MAX_CONVERTERS = 8
 
 
 class Entry:
-    __slots__ = ("conv", "parents", "origin", "lite", "full", "created_at", "mutated")
+    __slots__ = ("conv", "parents", "origin", "lite", "created_at", "mutated")
 
     def __init__(self, conv, parents, origin, created_at):
         self.conv = conv
         self.parents = list(parents)
         self.origin = origin
         self.lite = None
-        self.full = None
         self.created_at = created_at
         self.mutated = False
 
@@ -75,7 +74,7 @@ class C10Machine(Machine):
         self.entries = {}     # explicit id -> Entry (ids are recorded in the ops, so removing an op shifts nothing)
         self.next_id = 0
         self.strings, self.pairs = observe.probe_sets(
-            config["curie_pool"], config["uri_pool"], config["id_pool"], config["delimiters"], max_ids=2
+            config["curie_pool"], config["uri_pool"], config["id_pool"], config["delimiters"], max_ids=2, compact=True
         )
         self.last_was_derivation = None
         self.nontrivial_hit = False
@@ -329,7 +328,6 @@ class C10Machine(Machine):
         self.next_id = max(self.next_id, out + 1)
         e = Entry(conv, parents, origin, self.steps)
         e.lite = self._lite(conv)
-        e.full = self._full(conv)
         self.entries[out] = e
         return out
 
@@ -366,7 +364,7 @@ class C10Machine(Machine):
             h = self._add(conv, [], "new", op.get("out"))
             self.event("new")
             self.last_was_derivation = None
-            self._note()
+            self._note("new")
             return {"new": h}
         if kind == "mutate":
             return self._mutate(op)
@@ -441,10 +439,10 @@ class C10Machine(Machine):
             self.last_was_derivation = h
             if self._depth(h) >= 3:
                 self.probe("lineage_depth_ge_3")
-            self._note()
+            self._note(kind, "ok")
             return {"derived": h, "records": len(result.records)}
         self.last_was_derivation = None
-        self._note()
+        self._note(kind, "raised")
         return {"raised": type(err).__name__}
 
     def _reach_after_derivation(self, kind, op, hs, result):
@@ -527,10 +525,9 @@ class C10Machine(Machine):
             self.nontrivial_hit = True
         # the mutated converter legitimately changed: refresh it
         e.lite = self._lite(e.conv)
-        e.full = self._full(e.conv)
         e.mutated = True
         self._refresh_unstated(exclude=set(anc) | {h})
-        self._note()
+        self._note("mutate_" + op["kind"], "rejected" if err else "accepted")
         return {"mutated": h, "rejected": type(err).__name__ if err else None}
 
     def _refresh_unstated(self, exclude):
@@ -538,29 +535,29 @@ class C10Machine(Machine):
         for i, e in sorted(self.entries.items()):
             if i in exclude:
                 continue
-            now = self._lite(e.conv)
-            if now != e.lite:
+            # cheap test first (records, views, index dictionaries); this direction is never reported,
+            # the point is only to keep the baseline of the stated directions honest
+            if observe.structure(e.conv) != e.lite["structure"]:
                 self.unstated += 1
                 self.event("unstated_direction_change")
-                e.lite = now
-                e.full = self._full(e.conv)
+                e.lite = self._lite(e.conv)
 
-    def _note(self):
-        self.note_state([e.lite["structure"]["records"] for _, e in sorted(self.entries.items())], None, None)
+    def _note(self, kind="op", outcome=None):
+        self.note_state([e.lite["structure"]["records"] for _, e in sorted(self.entries.items())], kind, outcome)
 
     def recover(self, op):
         for e in self.entries.values():
             e.lite = self._lite(e.conv)
-            e.full = self._full(e.conv)
 
     def finish(self):
-        # end of run: the full four-mode observation of every converter against its baseline
+        # end of run: every converter against its latest legitimate baseline (catches a change that
+        # reached a converter by a route the per-step checks did not look at)
         for i, e in sorted(self.entries.items()):
-            now = self._full(e.conv)
-            if now != e.full:
+            now = self._lite(e.conv)
+            if now != e.lite:
                 site = SITE.get(e.origin, e.origin)
                 raise Violation(PROP, "changed_by_end_of_run", site,
-                                {"converter": i, "diff": observe.diff(e.full, now)})
+                                {"converter": i, "diff": observe.diff(e.lite, now)})
 
     def nontrivial(self):
         return self.nontrivial_hit
